@@ -85,3 +85,37 @@ package generate
 //@   modifies g.Generator.Config.Mounts, elems(g.Generator.Config.Mounts)
 //@   ensures [len]    len(cfg(g).Mounts) == old(len(cfg(g).Mounts))
 //@   ensures [sorted] forall i int :: forall j int :: 0 <= i && i < j && j < len(cfg(g).Mounts) ==> !mless(cfg(g).Mounts[j].Destination, cfg(g).Mounts[i].Destination)
+
+// -- annotations: removals ("-key") and sets; a set wins over a removal of the same key
+//@ pure marked(k string) = len(k) > 0 && k[0] == 45
+//@ pure isSet(fa map[string]string, k string) = has(fa, k) && !marked(k)
+// A(g): the spec's annotation map; it is created on the first set if the spec had none
+//@ pure amap(g *Generator) = g.Generator.Config.Annotations
+//@ func Generator.AdjustAnnotations
+//@   props C13
+//@   requires g != nil && g.Generator != nil && g.filterAnnotations != nil
+//@   modifies g.Generator.Config, g.Generator.Config.Annotations, map(g.Generator.Config.Annotations), calls("func:generate.Generator.filterAnnotations")
+//@   ensures [filter] ncalls("func:generate.Generator.filterAnnotations") == old(ncalls("func:generate.Generator.filterAnnotations")) + 1
+//@   ensures [err]    callret("func:generate.Generator.filterAnnotations", old(ncalls("func:generate.Generator.filterAnnotations")), 1) != nil ==> result != nil && cfg(g) == old(cfg(g)) && amap(g) == old(amap(g))
+//@   ensures [ok]     callret("func:generate.Generator.filterAnnotations", old(ncalls("func:generate.Generator.filterAnnotations")), 1) == nil ==> result == nil
+// (the filtered map must not be the spec's own annotation map: it is ranged over while the spec is written)
+//@   ensures [set]    result == nil ==> (let fa = callret("func:generate.Generator.filterAnnotations", old(ncalls("func:generate.Generator.filterAnnotations")), 0) in
+//@                      fa != old(amap(g)) ==> (forall k string :: isSet(fa, k) ==> has(amap(g), k) && amap(g)[k] == fa[k]))
+//@   ensures [rm]     result == nil ==> (let fa = callret("func:generate.Generator.filterAnnotations", old(ncalls("func:generate.Generator.filterAnnotations")), 0) in
+//@                      fa != old(amap(g)) ==> (forall k string :: has(fa, "-" + k) && !isSet(fa, k) ==> !has(amap(g), k)))
+//@   ensures [else]   result == nil ==> (let fa = callret("func:generate.Generator.filterAnnotations", old(ncalls("func:generate.Generator.filterAnnotations")), 0) in
+//@                      fa != old(amap(g)) ==> (forall k string :: !has(fa, "-" + k) && !isSet(fa, k) ==> has(amap(g), k) == old(has(amap(g), k)) && amap(g)[k] == old(amap(g)[k])))
+// first pass: removals only
+//@   loop 1 invariant cfg(g) == old(cfg(g)) && amap(g) == old(amap(g)) && ncalls("func:generate.Generator.filterAnnotations") == pre(ncalls("func:generate.Generator.filterAnnotations"))
+//@   loop 1 invariant annotations != old(amap(g)) ==> (forall k string :: visited("-" + k) ==> !has(amap(g), k))
+//@   loop 1 invariant annotations != old(amap(g)) ==> (forall k string :: !visited("-" + k) ==> has(amap(g), k) == old(has(amap(g), k)) && amap(g)[k] == old(amap(g)[k]))
+//@   loop 1 invariant annotations != old(amap(g)) ==> (forall k string :: has(annotations, k) == pre(has(annotations, k)) && annotations[k] == pre(annotations[k]))
+//@   loop 1 invariant annotations != old(amap(g)) ==> (forall j string :: visited(j) ==> has(annotations, j))
+// second pass: sets only
+//@   loop 2 invariant (old(cfg(g)) == nil && cfg(g) != nil ==> fresh(cfg(g)))
+//@   loop 2 invariant annotations != old(amap(g)) ==> (forall j string :: visited(j) ==> has(annotations, j))
+//@   loop 2 invariant cfgKept(g) && (old(amap(g)) != nil && cfg(g) == old(cfg(g)) ==> amap(g) == old(amap(g))) && (amap(g) == old(amap(g)) || fresh(amap(g))) && ncalls("func:generate.Generator.filterAnnotations") == pre(ncalls("func:generate.Generator.filterAnnotations"))
+//@   loop 2 invariant annotations != old(amap(g)) ==> (forall k string :: visited(k) && !marked(k) ==> has(amap(g), k) && amap(g)[k] == annotations[k])
+//@   loop 2 invariant annotations != old(amap(g)) ==> (forall k string :: has(annotations, "-" + k) && !(visited(k) && !marked(k)) ==> !has(amap(g), k))
+//@   loop 2 invariant annotations != old(amap(g)) ==> (forall k string :: !has(annotations, "-" + k) && !(visited(k) && !marked(k)) ==> has(amap(g), k) == old(has(amap(g), k)) && amap(g)[k] == old(amap(g)[k]))
+//@   loop 2 invariant annotations != old(amap(g)) ==> (forall k string :: has(annotations, k) == pre(has(annotations, k)) && annotations[k] == pre(annotations[k]))
